@@ -1,36 +1,55 @@
-(** C03 -- answers are those of depth-first, left-to-right SLD resolution.
-    Property theorems only (closed by [exact]); see DESIGN.md section 5 C03
-    for the full statement and for what is still missing. *)
+(** C03 -- cut removes exactly the clause-level choice points; call/N makes it local.
+    Property theorems only, over the machine model M (Model/Machine.v). *)
 From Coq Require Import ZArith Bool List String.
 From PV Require Import Model.Term Model.Unify Model.Clause Model.Machine Proofs.Promise Proofs.Trampoline.
 Import ListNotations.
 Open Scope Z_scope.
 
-(** Alternatives are discarded only by a cut, and a cut whose parent is on the
-    stack discards exactly the frames above and including that parent. *)
-Theorem C03_pop_until_found :
-  forall c above p below, stands_for c p = true -> forallb (fun q => negb (stands_for c q)) above = true ->
-    pop_until c (above ++ p :: below) = below.
-Proof. exact pop_until_found. Qed.
-Print Assumptions C03_pop_until_found.
-
-Theorem C03_pop_until_suffix : forall c s, exists pre, s = pre ++ pop_until c s.
-Proof. exact pop_until_suffix. Qed.
-Print Assumptions C03_pop_until_suffix.
-
-(** The trampoline (Promise.Force with its explicit stack, child, popUntil and
-    recover) computes the compositional depth-first semantics [Run]: the outcome
-    of the top promise -- its alternatives left to right, the first success
-    wins, a cut prunes to its parent, an error unwinds to the innermost frame
-    whose handler accepts it -- resumed on the frames below.  For every stack,
-    every state, every program and every amount of fuel that suffices. *)
+(** The trampoline computes the compositional semantics [Run] (same theorem as C01). *)
 Theorem C03_force_is_depth_first :
   forall fuel stack st r st', force fuel stack st = (r, st') -> r <> FOutOfFuel -> Run stack st r st'.
 Proof. exact (fun fuel => proj1 (force_sound fuel)). Qed.
 Print Assumptions C03_force_is_depth_first.
 
-(** non-vacuity: a concrete run of the machine that is not out of fuel *)
-Example C03_run_example :
-  exists r st', force 50 [mkP 7 [ThUnify (Var 0) (Int 1) KTop empty_env] false None None None false None None]
-                      (init_state [] 100 [Var 0] 5 None) = (r, st') /\ r = FFalse /\ s_answers st' = [[Int 1]].
-Proof. eexists _, _. split; [vm_compute; reflexivity | split; reflexivity]. Qed.
+(** In that semantics a cut whose parent (the promise created by the predicate
+    call, or the earlier cut of the same clause standing for it) is on the
+    stack discards precisely the frames pushed since that call -- the
+    remaining clauses (the parent's own alternatives) and the choice points of
+    the goals to its left -- and nothing older; the computation [o] that
+    follows the cut continues on the older frames. *)
+Theorem C03_cut_discards_exactly :
+  forall c o above p below st r st',
+    stands_for c p = true ->
+    forallb (fun q => negb (stands_for c q)) above = true ->
+    (Resume (VCut c o) (above ++ p :: below) st r st' <-> Resume o below st r st').
+Proof. exact cut_discards_exactly. Qed.
+Print Assumptions C03_cut_discards_exactly.
+
+(** ... and no frame reacts to a cut passing through it other than by
+    disappearing: its alternatives are not tried, its state is untouched. *)
+Theorem C03_cut_skips_alternatives :
+  forall p c o st o' st', After p (VCut c o) st o' st' ->
+    st' = st /\ ((stands_for c p = true /\ o' = o) \/ (stands_for c p = false /\ o' = VCut c o)).
+Proof. exact cut_skips_alternatives. Qed.
+Print Assumptions C03_cut_skips_alternatives.
+
+(** popUntil itself *)
+Theorem C03_pop_until_found :
+  forall c above p below, stands_for c p = true -> forallb (fun q => negb (stands_for c q)) above = true ->
+    pop_until c (above ++ p :: below) = below.
+Proof. exact pop_until_found. Qed.
+
+(** what used to go wrong (F20, repaired): with no stand-in on the stack a cut empties it *)
+Theorem C03_pop_until_missing :
+  forall c s, forallb (fun q => negb (stands_for c q)) s = true -> pop_until c s = [].
+Proof. exact pop_until_missing. Qed.
+Print Assumptions C03_pop_until_missing.
+
+(** non-vacuity: two cuts in one clause body, an older choice point survives.
+    p :- true, !, true, !.   ?- member(X,[1,2,3]), p.   has three answers in M. *)
+From PV Require Import Model.Boot.
+Example C03_second_cut_keeps_older_choice_points :
+  fst (run 4000 (program_db [Cmp ":-" [Atom "p"; Cmp "," [Atom "true"; Cmp "," [Atom "!"; Cmp "," [Atom "true"; Atom "!"]]]]])
+           (Cmp "," [Cmp "member" [Var 0; list_t [Int 1; Int 2; Int 3]]; Atom "p"]) [0] 10)
+  = [[Int 1]; [Int 2]; [Int 3]].
+Proof. vm_compute. reflexivity. Qed.
